@@ -805,7 +805,7 @@ cdef class SuperGaussian:
             val = (-d * d * 0.5 + 2.0 * d * q2 - d -
                    2.0 * q2 * q2 + 4 * q2) * exp(-q2)
 
-        return -fac * h1 * val
+        return fac * h1 * val
 
     cpdef double py_gradient_h(self, double[:] xij, double rij, double h):
         return self.gradient_h(&xij[0], rij, h)
